@@ -1131,7 +1131,7 @@ func validatePath(p gPath, style skipStyle) string {
 
 func checkC02(P *Program, r *Result, tier string) {
 	r.Explanation = "GRAMMAR (every successful path of each skipper — loops taken 0, 1, 2 times — consumes a sentence of the Thrift Binary value grammar for its type class, each element skipped by its own type tag: fixed size only under size>0 of that tag, string skip only under tag==STRING, recursion with that tag; container loops bounded by the header's size word; fast paths consume size×element size), " +
-		"STR-HELPER (the string-skip helpers consume 4 + the 32-bit length), ACCUM (each decoder's SkipN hands out exactly the next n bytes after the bytes already accumulated and advances the counter by n on success only; the counter restarts at 0 whenever a new value or input begins), " +
+		"TIGHT (no success return of the pointer-based skipper requires a byte beyond what it consumes: values ending exactly at the end of the buffer are accepted), ACCUM (each decoder's SkipN hands out exactly the next n bytes after the bytes already accumulated and advances the counter by n on success only; the counter restarts at 0 whenever a new value or input begins), " +
 		"DECODER-BYTES (Next returns exactly the accumulated window), IOREADER (ReaderSkipDecoder.SkipN can never read past the n bytes asked for)."
 	type target struct {
 		fn     *ssa.Function
@@ -1231,6 +1231,18 @@ func checkC02(P *Program, r *Result, tier string) {
 		}
 		r.add("GRAMMAR", shortName(fn), "paths", fmt.Sprintf("all %d successful paths (%s) are sentences of the value grammar", len(paths), strings.Join(cl, " ")), P.pos(fn.Pos()), okAll, I.bad)
 	}
+	// ---- TIGHT ----
+	var spanFns []*ssa.Function
+	for _, f := range P.reachable([]*ssa.Function{pubSkip}, func(f *ssa.Function) bool { return !inRepo(f) }) {
+		for i, p := range f.Params {
+			if isUnsafePointer(p.Type()) && i+1 < len(f.Params) {
+				spanFns = append(spanFns, f)
+				break
+			}
+		}
+	}
+	spanFns = append(spanFns, pubSkip)
+	tightRules(P, r, "TIGHT", spanFns)
 	c02Decoders(P, r)
 }
 
@@ -1557,4 +1569,64 @@ func c02Decoders(P *Program, r *Result) {
 func isPlainInt(t types.Type) bool {
 	b, ok := t.Underlying().(*types.Basic)
 	return ok && b.Kind() == types.Int
+}
+
+// tightRules: a success return must not *require* more input than it consumes.
+// If the facts that hold on the way to a success return entail
+// "consumed + 1 ≤ available", some check on that way is stricter than needed and
+// a value that ends exactly at the end of the input is rejected. The rule only
+// fires when the stronger fact is proved.
+func tightRules(P *Program, r *Result, rule string, fns []*ssa.Function) {
+	A := newAnalysis(P)
+	for _, fn := range fns {
+		if fn == nil || fn.Blocks == nil {
+			continue
+		}
+		fa := A.fa(fn)
+		fa.noGeneralize = true
+		fa.ensureInvariants()
+		res := fn.Signature.Results()
+		// which result is the consumed count, what is the available amount
+		cntIdx := -1
+		for i := res.Len() - 1; i >= 0; i-- {
+			if isPlainInt(res.At(i).Type()) {
+				cntIdx = i
+				break
+			}
+		}
+		if cntIdx < 0 || !isErrorType(res.At(res.Len()-1).Type()) {
+			continue
+		}
+		var avail *Lin
+		var base *Lin
+		for i, p := range fn.Params {
+			if isUnsafePointer(p.Type()) && i+1 < len(fn.Params) {
+				if b, ok := fn.Params[i+1].Type().Underlying().(*types.Basic); ok && b.Kind() == types.Uintptr {
+					base = fa.ptrExpand(p)
+					avail = fa.expand(fn.Params[i+1])
+					break
+				}
+			}
+			if isByteSlice(p.Type()) && avail == nil {
+				if d := fa.sliceDesc(p); d != nil {
+					base = linConst(0)
+					avail = d.Len
+				}
+			}
+		}
+		if avail == nil {
+			continue
+		}
+		n := 0
+		for _, ret := range returnsOf(fn) {
+			if !isNilConst(ret.Results[res.Len()-1]) {
+				continue
+			}
+			n++
+			cnt := fa.expand(ret.Results[cntIdx])
+			strict := fa.prove(ineqLE(base.add(cnt).addConst(1), avail), ret.Block(), rootCtx)
+			r.add(rule, shortName(fn), "return", "success does not require more input than it consumes (a value ending exactly at the end of the input is accepted)", P.pos(instrPos(ret)), !strict, "the checks on the way to this return guarantee at least one byte beyond the consumed "+A.linString(cnt))
+		}
+		_ = n
+	}
 }
